@@ -235,6 +235,16 @@ func TestVerifC16(t *testing.T) {
 		}
 		r := c.Rand(cn, 0)
 		g := world.Generate(r, worldHosts(s, r.Intn), world.DefaultOpts(r))
+		// long, densely styled bodies: every row of the page is then full of styled cells (several KB per row on a wide terminal),
+		// the bottom row included, which the status line replaces
+		for _, p := range g.Posts {
+			if r.Intn(6) == 0 {
+				filler := strings.Repeat("lorem ipsum dolor sit amet consectetur ", 12+r.Intn(25))
+				p.Body = "<h1>" + filler + "</h1><p><a href=\"https://links.example/long/" + p.Label + "\">" + filler + "</a> <code>" + filler + "</code> <b><i><u>" + filler + "</u></i></b></p><blockquote><pre>" + strings.Repeat(strings.Repeat("x", 400)+"\n", 3) + "</pre></blockquote>"
+				p.BodyType, p.BodyLinks = "text/html", []string{"https://links.example/long/" + p.Label}
+			}
+		}
+		g.Materialize()
 		_, feedNames := setFeeds(g, r)
 		s.SetHandler(wk.Handler(g.World))
 		s.ResetLog() // the byte log is only needed per world; keeping it would grow without bound
